@@ -6,11 +6,13 @@ import traceback
 LEVEL = 'exploration'
 RULE = ('sequences of 10-40 reservation requests (create / update / delete; ids tenant/alloc/cell over 2 cells and 1-3 '
         'partitions, some without a partition record; memory/disk spelled \\d+[KkMmGg], cpu \\d+%; traits from a small '
-        'set; partitions with 0-3 per-trait limits; updates with or without the optional partition field) issued to the '
+        'set; names with capitals; partitions with 0-4 per-trait limits, redefined now and then - also below what is already '
+        'promised; updates with or without the optional traits field) issued to the '
         'real api.allocation.API().reservation with the real JSON-schema validation, over the real admin objects '
         '(CellAllocation / Partition to_entry/from_entry, _diff_entries) on an in-memory directory. Oracle per request: an '
         'independent sum (own unit parser) over the harness mirror of the stored reservations of the same cell+partition, '
-        'the replaced one excluded, per dimension and per limited trait carried by the request: fits => accepted and '
+        'the replaced one excluded, per dimension and per limited trait the reservation carries once accepted (the '
+        'traits of the request, or - for an update naming none - the stored ones): fits => accepted and '
         'stored as requested; does not fit => exc.InvalidInputError and directory unchanged; any other exception type '
         'is a violation. Non-trivial: the sequence contains a decision where an existing reservation shares a limited '
         'trait with the request, or an update of an existing reservation; distinct by hash of the request kinds/decisions.')
